@@ -183,6 +183,34 @@ def run_codec(cfg, counters, violations, samples, distinct):
                 except Exception as e:
                     viol("roundtrip-raises" if wire == want else classify_codec(n, masked, "write", "header"),
                          "frame %s: reading the library's own bytes raised %r" % (case, e), case)
+                # a frame is a value: writing it does not change it.  The frame a reader returned (its payload is whatever type the
+                # reader uses, e.g. a bytearray) is written twice - a relay to two peers - and both copies are the RFC bytes
+                if idx % 3 == 0 or n <= 130:
+                    for variant in ("parsed", "bytearray"):
+                        try:
+                            if variant == "parsed":
+                                g2 = H.readFrameFactory(RecSock(want))()
+                            else:
+                                g2 = H.WebSocketFrame()
+                                g2.flags.fin = 1
+                                g2.flags.opcode = getattr(H.WebSocketOpCode, opname)
+                                g2.payload = bytearray(payload)
+                                g2.payload_length = len(payload)
+                                if masked:
+                                    g2.flags.mask = 1
+                                    g2.masking_key = key
+                            outs = []
+                            for _w in range(2):
+                                s2 = RecSock()
+                                H.writeFrameFactory(s2)(g2)
+                                outs.append(b"".join(s2.out))
+                            counters.inc("frames_written_twice")
+                            if outs[0] != want or outs[1] != want or bytes(g2.payload) != payload:
+                                viol("frame-changed-by-write", "frame %s (%s payload): first write %s, second write %s, payload afterwards %s" % (
+                                    case, variant, "RFC" if outs[0] == want else "differs", "RFC" if outs[1] == want else "differs",
+                                    "unchanged" if bytes(g2.payload) == payload else "changed"), case)
+                        except Exception as e:
+                            viol("write-raises", "writing a %s frame %s twice raised %r" % (variant, case, e), case)
                 if len(samples) < 3 and n in (126, 65535) and masked:
                     samples.append({"case": case, "wire_prefix": wire[:14].hex(), "rfc_prefix": want[:14].hex()})
     # the convenience constructors
@@ -215,6 +243,8 @@ class Endpoint(object):
         self.events.append(ev)
         self.by_handler.setdefault(id(handler), []).append(ev)
         # an endpoint that acts on what it hears: it answers, or closes its side while the client is still sending
+        if isinstance(payload, str) and payload.startswith("!raise"):
+            raise RuntimeError("seeded failure in the endpoint callback")
         if isinstance(payload, str) and payload.startswith("!send"):
             handler.send("echo:" + payload)
         elif isinstance(payload, str) and payload.startswith("!close"):
@@ -267,7 +297,7 @@ def run_concurrent(r, holder, counters, violations):
         proto, tr, ep = make_channel(holder)
         handler = proto.websocket_callback
         frames = gen_frames(r)
-        frames = [f for f in frames if f[0] != "Close"]
+        frames = [f for f in frames if f[0] != "Close" and not (f[0] == "Text" and f[1].startswith(b"!raise"))]
         stream = b"".join(ref_encode(OPS[op], p, key) for op, p, key in frames)
         L_ = len(stream)
         cuts = sorted(r.sample(range(1, L_), min(L_ - 1, r.randint(2, 8)))) if L_ > 2 else []
@@ -342,6 +372,8 @@ def gen_frames(r, small=False):
                 p = "!send" + p             # the endpoint answers from inside its callback
             elif x < 0.27 and not small:
                 p = "!close" + p            # the endpoint closes its side; the client's later frames still arrive
+            elif x < 0.34 and not small:
+                p = "!raise" + p            # the endpoint callback fails on this frame; the frames behind it are still delivered
             p = p.encode("utf-8")
         else:
             p = r.randbytes(n)
@@ -385,12 +417,22 @@ def feed(boundary, holder, frames, chunks):
         proto, tr, ep = make_channel(holder)
         base = 1   # the Open event
         err = None
-        try:
-            with contextlib.redirect_stdout(io.StringIO()):
-                for c in chunks:
+        raising = any(op == "Text" and p.startswith(b"!raise") for op, p, k in frames)
+        with contextlib.redirect_stdout(io.StringIO()):
+            for c in chunks:
+                try:
                     proto.dataReceived(c)
-        except Exception as e:
-            err = e
+                except Exception as e:
+                    if not (raising and "seeded failure" in str(e)):
+                        err = err or e
+            # (frames that sat behind a failing one in the same read are delivered with the next read: one more frame per failure)
+            for _f in range(sum(1 for op, p, k in frames if op == "Text" and p.startswith(b"!raise")) if raising else 0):
+                try:
+                    proto.dataReceived(ref_encode(OPS["Ping"], b"flush", b"\x01\x02\x03\x04"))
+                except Exception as e:
+                    if "seeded failure" not in str(e):
+                        err = err or e
+            ep.events[:] = [e_ for e_ in ep.events if e_ != (OPS["Ping"], b"flush")]
         ev = list(ep.events)
         close_channel(proto)
         if not ev or ev[0] != (0xFF, None):
@@ -398,11 +440,15 @@ def feed(boundary, holder, frames, chunks):
         return ev[base:], err
     handler, ep = make_direct()
     err = None
-    try:
-        for c in chunks:
+    raising = any(op == "Text" and p.startswith(b"!raise") for op, p, k in frames)
+    n_raise = sum(1 for op, p, k in frames if op == "Text" and p.startswith(b"!raise"))
+    for c in chunks + [ref_encode(OPS["Ping"], b"flush", b"\x01\x02\x03\x04")] * n_raise:
+        try:
             handler(c)
-    except Exception as e:
-        err = e
+        except Exception as e:
+            if not (raising and "seeded failure" in str(e)):
+                err = err or e
+    ep.events[:] = [e_ for e_ in ep.events if e_ != (OPS["Ping"], b"flush")]
     return list(ep.events), err
 
 
@@ -455,7 +501,7 @@ def run_seg(cfg, counters, violations, samples, distinct):
 
     # positive control: one frame per read, nothing split
     for _ in range(40):
-        frames = [f for f in gen_frames(r) if len(f[1]) != 127] or [("Binary", b"x", b"abcd")]
+        frames = [f for f in gen_frames(r) if len(f[1]) != 127 and not f[1].startswith(b"!raise")] or [("Binary", b"x", b"abcd")]
         chunks = [ref_encode(OPS[op], p, k) for op, p, k in frames]
         want = expected_events(frames)
         for boundary in ("channel", "direct"):
